@@ -200,6 +200,7 @@ def run(tier, seed, replay=None):
     from checks import dmd_common
     symdm = pyload.module("digital_metadata")
     dmd_common.bounds_and_latest(ck, symdm)
+    dmd_common.read_wiring(ck, symdm, kmain=2, kff=1)
     dmd_common.writer_placement(ck, symdm, 2)
     ck.replayers["dmd."] = C13.replay_dmd
     ck.replayers["w.gen"] = C13.replay_dmd
